@@ -18,7 +18,7 @@ pub fn units(id: &str, tier: &str) -> Option<Vec<Unit>> {
     Some(match id {
         "C01" => { let mut v = seqprops::c01(thorough); v.push(schedprops::many_subscriptions_unit(thorough)); v.push(c15::limits_unit(thorough)); v.push(seqprops::deadline_walk(thorough)); v.push(seqprops::big_batch_expiry_race(thorough)); v.extend(seqprops::core_units(thorough)); v.extend(schedprops::c01_sched(thorough)); v }
         "C02" => { let mut v = seqprops::c02(thorough); v.extend(seqprops::core_units(thorough)); v.extend(schedprops::c02_sched(thorough)); v }
-        "C03" => { let mut v = c03::units(thorough); v.extend(seqprops::core_units(thorough)); v.extend(seqprops::stream_units(thorough)); v }
+        "C03" => { let mut v = c03::units(thorough); v.extend(seqprops::core_units(thorough)); v.extend(seqprops::stream_units(thorough)); v.push(seqprops::reincarnation_unit(thorough)); v }
         "C04" => { let mut v = seqprops::c04(thorough); v.extend(seqprops::core_units(thorough)); v }
         "C05" => { let mut v = seqprops::c05(thorough); v.extend(seqprops::core_units(thorough)); v }
         "C06" => { let mut v = c06::units(thorough); v.extend(seqprops::stream_units(thorough)); v.push(c15::limits_unit(thorough)); v }
